@@ -1574,6 +1574,26 @@ func propCases(r *rand.Rand, tier string) []gcase {
 		out = append(out, c)
 	}
 	note, i64, pause := synthFields[10], synthFields[7], synthFields[11]
+	// round 6: the same file WITHOUT a line terminator after its last line: the last line is a line like any other
+	addNoNL := func(lines []string, key string, field synthField) {
+		n := len(out)
+		add("ph-propx", lines, key, field)
+		c := out[n]
+		pf := c.files[0]
+		nonl := propFileT{path: strings.TrimSuffix(pf.path, ".properties") + ".nonl.properties", lines: pf.lines}
+		m := cloneMap(c.cfg.(map[string]any))
+		m[field.key] = "${property:" + nonl.path + "#" + key + "}"
+		c.files, c.cfg, c.path = []propFileT{nonl}, m, c.path+"#nonl"
+		out = append(out, c)
+	}
+	addNoNL([]string{"MY_FIELD=data"}, "MY_FIELD", note)
+	addNoNL([]string{"a=1", "n=42"}, "n", i64)
+	addNoNL([]string{"a=1", "n=42"}, "a", i64)
+	addNoNL([]string{"# c", "timeout=3s"}, "timeout", pause)
+	addNoNL([]string{"a=1", "n=42\r"}, "n", i64)
+	addNoNL([]string{"a=1", "n"}, "n", i64)
+	addNoNL([]string{"a=1", "n=4", "n=42"}, "n", i64)
+	addNoNL(stdProps.lines, "ep", note)
 	// the documented shape, and keys that are proper prefixes of one another in both orders
 	add("ph-propx", []string{"MY_FIELD=data"}, "MY_FIELD", note)
 	add("ph-propx", []string{"MY_FIELD=data"}, "MY_FIEL", note)
